@@ -347,6 +347,17 @@ pub fn run_case(case: &Case) -> (Vec<(String, String)>, Info) {
         if !v.is_empty() {
             break;
         }
+        if std::env::var("VERIF_TRACE").is_ok() {
+            let tipb = node.chain.get_latest_block().cloned();
+            eprintln!(
+                "step {step} {opname} {:?}: tip {:?} supply {:?} built {} | tip txs {:?}",
+                op,
+                node.tip().0,
+                crate::refmodel::impl_supply_u128(&node.chain, gp),
+                built.len(),
+                tipb.map(|b| b.transactions.iter().map(|t| (crate::world::tx_type_name(t.transaction_type), t.from.iter().map(|s| (s.amount, s.slip_type as u8)).collect::<Vec<_>>(), t.to.iter().map(|s| (s.amount, s.slip_type as u8)).collect::<Vec<_>>())).collect::<Vec<_>>())
+            );
+        }
         // ---- invariants ----
         let (bal, unspent, sum, subset) = wallet_view(&node);
         if bal as u128 != sum {
